@@ -120,7 +120,7 @@ def op_task(t):
 
 
 def run(tier, seed):
-    maxlen = 2 if tier == "quick" else 3
+    maxlen = 3 if tier == "quick" else 4
     ops = ["havespace", "getscript", "putscript", "checkscript", "deletescript", "renamescript", "setactive", "listscripts", "capability"]
     res = pool.run_tasks("checks.c08:op_task", [(op, maxlen) for op in ops])
     n = sum(r["n"] for r in res)
